@@ -471,11 +471,8 @@ impl<K: Hash + Eq, V, RH: BuildHasher, FH: BuildHasher, GH: BuildHasher> Cache<K
         // frequently used list
         if self.ghost.contains(&k) {
             return if recent_len + freq_len >= self.size {
-                let ent = if recent_len > self.recent_size {
-                    self.recent.remove_lru_in().unwrap()
-                } else {
-                    self.frequent.remove_lru_in().unwrap()
-                };
+                // the cache is full, so at least one of the two queues is not empty
+                let ent = self.evict_resident(recent_len > self.recent_size).unwrap();
 
                 let rst = self.ghost.put_or_evict_nonnull(ent);
                 match self.ghost.map.remove(&key_ref) {
@@ -540,11 +537,8 @@ impl<K: Hash + Eq, V, RH: BuildHasher, FH: BuildHasher, GH: BuildHasher> Cache<K
         // LRU. Then, put the removed entry to the front of the ghost LRU,
         // if ghost LRU is also full, the cache will evict the less recent used entry of
         // ghost LRU.
-        let ent = if recent_len >= self.recent_size {
-            self.recent.remove_lru_in().unwrap()
-        } else {
-            self.frequent.remove_lru_in().unwrap()
-        };
+        // the cache is full, so at least one of the two queues is not empty
+        let ent = self.evict_resident(recent_len >= self.recent_size).unwrap();
 
         self.recent.put_nonnull(bks);
         self.ghost.put_nonnull(ent)
@@ -1574,6 +1568,22 @@ impl<K: Hash + Eq, V, RH: BuildHasher, FH: BuildHasher, GH: BuildHasher>
     /// ```
     pub fn frequent_iter_lru_mut(&mut self) -> LRUIterMut<'_, K, V> {
         self.frequent.iter_lru_mut()
+    }
+
+    /// Takes the least recently used entry out of the preferred resident queue
+    /// (recent if `from_recent`, otherwise frequent), falling back to the other
+    /// queue when the preferred one is empty (a quota of 0, or a quota equal to the
+    /// size, leaves one of them legitimately empty while the cache is full).
+    fn evict_resident(&mut self, from_recent: bool) -> Option<core::ptr::NonNull<EntryNode<K, V>>> {
+        if from_recent {
+            self.recent
+                .remove_lru_in()
+                .or_else(|| self.frequent.remove_lru_in())
+        } else {
+            self.frequent
+                .remove_lru_in()
+                .or_else(|| self.recent.remove_lru_in())
+        }
     }
 
     fn move_to_frequent<T, Q>(&mut self, k: &Q, v: T) -> Option<T>
